@@ -38,6 +38,24 @@ def classify_raise(op, src_sizes, e):
     return f"{k}:raises-{type(e).__name__}"
 
 
+def explained_by_zero_variance_std(fs, src, ops, action, batch, rtol, order):
+    """True iff the program contains a std over 1 < batch < n and every disagreeing entry descends from an entry of that std whose
+    true value is zero (the recorded finding: sqrt(E[x^2] - mean^2) cancels to NaN or ~1e-8 there)."""
+    s = fs.shadow_source(src)
+    tainted = False
+    for i, op in enumerate(ops):
+        op2 = dict(op, batch=batch[i]) if i in batch else op
+        if op2["op"] == "reduce" and op2["name"] == "std" and 1 < op2["batch"] < s.size(op2["dim"]):
+            tainted = True
+        s = fs.shadow_apply(s, op2, taint_zero_std=True)
+    if not tainted:
+        return False
+    try:
+        return fs.compare(action, s, rtol=rtol, require_dim_order=order, ignore_nan_expected=True) is None
+    except Exception:  # noqa: BLE001
+        return False
+
+
 def one_program(col: Collector, rng, index: int):
     import numpy as np
     from vlib import fluentshadow as fs
@@ -81,7 +99,8 @@ def one_program(col: Collector, rng, index: int):
     col.count("programs_compared")
     if diff:
         last_red = next((o for o in reversed(ops) if o["op"] == "reduce"), None)
-        if len(diff) > 2 and diff[2].get("cancellation_at_zero") and any(o["op"] == "reduce" and o["name"] == "std" and o["_batched"] for o in ops):
+        if (len(diff) > 2 and diff[2].get("cancellation_at_zero") and any(o["op"] == "reduce" and o["name"] == "std" and o["_batched"] for o in ops)) or \
+                (diff[0] in ("nan", "values") and explained_by_zero_variance_std(fs, src, ops, a, {}, rtol, order)):
             col.violation("batched-std-cancellation-at-zero-variance", diff[1], wit, index)
             return
         tag = ""
@@ -111,7 +130,8 @@ def one_program(col: Collector, rng, index: int):
                 col.violation(f"evaluation-raises-{type(e).__name__}:batched", f"{e!r:.200}", w2, index)
                 continue
             col.count("batch_variants_compared")
-            if d2 and len(d2) > 2 and d2[2].get("cancellation_at_zero") and op["name"] == "std" and op["_batched"]:
+            if d2 and ((len(d2) > 2 and d2[2].get("cancellation_at_zero") and op["name"] == "std" and op["_batched"]) or
+                       (d2[0] in ("nan", "values") and explained_by_zero_variance_std(fs, src, ops, a2, {i: b}, rtol, order))):
                 col.violation("batched-std-cancellation-at-zero-variance", f"batch_size={b} (n={n}): {d2[1]}", w2, index)
             elif d2:
                 col.violation(f"batch-size-changes-result:{op['name']}:{d2[0]}:{'keep_dim' if op['keep'] else 'drop_dim'}{':float' if floats else ''}",
